@@ -800,7 +800,7 @@ def run(chk: Check):
                         'calendar lemmas are an exhaustive sweep of 1970-2099']
     chk.coq_props('props/C13_Props.v')
     extract(chk)
-    n = chk.n(320, 3500)
+    n = chk.n(700, 6000)
     cases = load_corpus(chk) + gen_cases(chk, n)
     check_rows(chk, cases)
 
